@@ -45,7 +45,7 @@ Print Assumptions C06_lines_in_time_order.
    semantics (a stack of entry times per task, display depth inherited across fork) says *)
 Theorem C06_replay_refines_reference : forall forks sel tasks, forallb wf_task tasks = true ->
   events_of (fst (replay_raw (mkcfg false forks) sel tasks)) =
-  srun forks tasks (merge (mask_queues sel tasks 0)) (S0 tasks).
+  srun forks tasks (merge (mask_queues sel tasks 0)) (init_S sel tasks).
 Proof. exact replay_refines_spec. Qed.
 Print Assumptions C06_replay_refines_reference.
 
@@ -111,13 +111,14 @@ Theorem C06_tid_selects : forall forks sel tasks,
 Proof. exact tid_selects. Qed.
 Print Assumptions C06_tid_selects.
 
-(* without that proviso the statement is false of the code: `--tid <child>` alone shows the
-   child's inherited calls at depth 0 *)
+(* without that proviso the statement is false of the code: a forked child selected alone
+   continues at its inherited stack depth, which differs from the full view when its parent is
+   displayed with an offset *)
 Theorem C06_tid_child_only_refuted :
-  forallb wf_task tid_witness_tasks = true /\
-  events_of (fst (replay_raw (mkcfg false [4]) (Some [1%nat]) tid_witness_tasks)) <>
+  forallb wf_task tid_witness_offset = true /\
+  events_of (fst (replay_raw (mkcfg false [4]) (Some [1%nat]) tid_witness_offset)) <>
   filter (fun e => selected (Some [1%nat]) (e_task e))
-         (events_of (fst (replay_raw (mkcfg false [4]) None tid_witness_tasks))).
+         (events_of (fst (replay_raw (mkcfg false [4]) None tid_witness_offset))).
 Proof. exact tid_child_only_refuted. Qed.
 Print Assumptions C06_tid_child_only_refuted.
 
